@@ -932,6 +932,8 @@ impl UntypedExpr {
         fns: &mut TypedFns,
         defs: &Defs,
     ) -> Result<TypedExpr, TypeErrors> {
+        #[cfg(feature = "verif_hooks")]
+        crate::verif_hooks::yield_point("check::expr");
         let meta = self.meta;
         let (expr, ty) = match &self.inner {
             ExprEnum::True => (ExprEnum::True, Type::Bool),
